@@ -316,8 +316,11 @@ def fit_corpus():
         # a forced model observed from a time that is not a multiple of the forcing period; a tiny seed in proportions
         gen_fit_case(r, ["SIS_Periodic"], "truth", dict(obs=["I"], target=["beta0", "delta"], loss="SquareLoss", t_shift=3.0)),
         gen_fit_case(r, ["SIS_Periodic"], "random", dict(obs=["S", "I"], target=["gamma", "beta0"], loss="NormalLoss", t_shift=3.0)),
-        gen_fit_case(r, ["SIR_norm"], "truth", dict(obs=["I"], target=None, loss="SquareLoss", truth=[0.5, 1.0 / 3.0],
-                                                    x0=[1.0 - 1e-8, 1e-8, 0.0], T=70.0, nobs=12)),
+        # (the whole epidemic is observed: with a seed of 1e-8 the timing of the peak amplifies any integration error)
+        gen_fit_case(r, ["SIR_norm"], "truth", dict(obs=["I", "R"], target=None, loss="SquareLoss", truth=[0.5, 1.0 / 3.0],
+                                                    x0=[1.0 - 1e-8, 1e-8, 0.0], T=220.0, nobs=55)),
+        gen_fit_case(r, ["SIR_norm"], "truth", dict(obs=["I", "R"], target=None, loss="NormalLoss", truth=[0.5, 1.0 / 3.0],
+                                                    x0=[1.0 - 1.3e-7, 1.3e-7, 0.0], T=200.0, nobs=50)),
         # head counts instead of proportions: the transmission parameter is of order 1e-9
         gen_fit_case(r, ["SIR_norm"], "truth", dict(obs=["I"], target=None, loss="SquareLoss", truth=[4e-9, 0.25],
                                                     x0=[1e8 - 1e3, 1e3, 0.0], T=40.0)),
